@@ -392,7 +392,7 @@ PROPS = {
     'C03': dict(profiles=['valid', 'hostile', 'faults', 'faults_hostile'], n=(3000, 120000), large=['large', 'large_faults']),
     'C05': dict(profiles=['faults', 'faults_hostile'], n=(3000, 120000), large=['large_faults']),
     'C06': dict(profiles=['hostile', 'faults_hostile'], n=(3000, 100000), large=['large', 'large_faults']),
-    'C07': dict(profiles=['hostile', 'hostile', 'valid'], n=(3000, 100000)),
+    'C07': dict(profiles=['hostile', 'hostile', 'valid'], n=(3000, 100000), large=['large']),
     'C08': dict(profiles=['valid', 'hostile'], n=(2000, 80000), large=['large']),
     'C09': dict(profiles=['valid', 'hostile', 'faults'], n=(3000, 90000), large=['large']),
     'C10': dict(profiles=['valid', 'hostile', 'faults'], n=(2000, 80000), large=['large']),
@@ -400,8 +400,8 @@ PROPS = {
     'C12': dict(profiles=['valid', 'hostile', 'faults'], n=(3000, 90000), large=['large']),
     'C13': dict(profiles=['valid', 'hostile', 'faults'], n=(2000, 80000), large=['large']),
     'C15': dict(profiles=['valid', 'hostile', 'faults'], n=(1500, 60000)),
-    'C17': dict(profiles=['valid', 'hostile'], n=(1500, 60000)),
-    'C18': dict(profiles=['hostile', 'faults'], n=(3000, 100000)),
+    'C17': dict(profiles=['valid', 'hostile'], n=(1500, 60000), large=['large']),
+    'C18': dict(profiles=['hostile', 'faults'], n=(3000, 100000), large=['large']),
     'C20': dict(profiles=['valid', 'hostile', 'faults'], n=(1500, 60000), large=['large']),
 }
 
